@@ -54,6 +54,19 @@ func (s ecSigner) Sign(r io.Reader, digest []byte, opts crypto.SignerOpts) ([]by
 }
 func (s ecSigner) Algorithm() jwa.KeyAlgorithm { return jwa.ES256 }
 
+// sliceSigner is a crypto.Signer whose type is NOT comparable (it has a slice field), as signers that carry
+// buffers or option lists are; two of them are two keys, whatever their type.
+type sliceSigner struct {
+	priv *ecdsa.PrivateKey
+	tags []string
+}
+
+func (s sliceSigner) Public() crypto.PublicKey { return &s.priv.PublicKey }
+func (s sliceSigner) Sign(r io.Reader, digest []byte, opts crypto.SignerOpts) ([]byte, error) {
+	return s.priv.Sign(r, digest, opts)
+}
+func (s sliceSigner) Algorithm() jwa.KeyAlgorithm { return jwa.ES256 }
+
 type keyPair struct {
 	kind   string // EdDSA | ES512 | PS512 | ES256
 	id     string
@@ -187,7 +200,9 @@ type signWorld struct {
 }
 
 var oddPluginSources = []string{"myorg//thing#v1", "myorg/thing/#v1", "myorg/plugins/../thing#v1", "docker%2525#v1", "docker%25#v1", "x/y/z/", "#frag", "name#", "a b/c d#e f",
-	"./rel/../path", "docker#", "/abs//path", "github.com//org/repo", "org/name#ref#again", "org/name?query=1#v1", "ORG/Name#V1", "org/name-buildkite-plugin#v1", "name-buildkite-plugin"}
+	"./rel/../path", "docker#", "/abs//path", "github.com//org/repo", "org/name#ref#again", "org/name?query=1#v1", "ORG/Name#V1", "org/name-buildkite-plugin#v1", "name-buildkite-plugin",
+	// white space around a source is part of the string the Author wrote
+	"docker#v5.0.0 ", " docker#v5.0.0", "./local/plugin\t", "github.com/my-org/my-plugin-buildkite-plugin#v1.0.0 ", "my-org/thing \n"}
 
 func (w *signWorld) str(pos string) string {
 	t := w.c.Plan
